@@ -8,9 +8,11 @@ EXTRA="$@"
 export GOFLAGS=-mod=mod GOPROXY=off
 OUT=/verif/seeded/$NAME
 mkdir -p $OUT
+if [ -d $WT/OUT ]; then   # (the scratch worktree is gone once a seed has been confirmed: MODE=checks then works from $OUT alone)
 cp $WT/OUT/patch.diff $OUT/patch.diff
 cp $WT/OUT/zz_demo_test.go $OUT/zz_demo_test.go 2>/dev/null || cp $WT/zz_demo_test.go $OUT/zz_demo_test.go
 cp $WT/OUT/NOTES.md $OUT/NOTES.md 2>/dev/null
+fi
 DEMO=$(grep -o 'func Test[A-Za-z0-9_]*' $OUT/zz_demo_test.go | head -1 | sed 's/func //')
 MODE=${MODE:-all}
 if [ "$MODE" != "checks" ]; then
